@@ -385,13 +385,146 @@ func ruleStickyEnd(c *Ctx, r *R) {
 }
 
 var divisorExceptions = map[string]string{
-	"container/deque.positiveMod|(l%d)":            "callers pass len(d.a) after maybeExpand()/a non-empty check: len(d.a) > 0 (class invariant walked for every constructor state incl. Shrink(0) and Grow on the zero value)",
-	"container/deque.Deque.PushBack|":              "len(d.a) > 0 after maybeExpand()",
-	"container/deque.Deque.PopFront|":              "Len() > 0 was checked (panic otherwise) ⇒ len(d.a) > 0",
-	"container/deque.Deque.Item|":                  "0 <= i < Len() was checked ⇒ len(d.a) > 0",
-	"container/deque.Deque.Set|":                   "0 <= i < Len() was checked ⇒ len(d.a) > 0",
-	"container/deque.dequeIterator.Next|":          "Len() > 0 was checked just before ⇒ len(d.a) > 0",
-	"xslices.Chunk|":                               "documented: Chunk panics for chunkSize <= 0",
+	"xslices.Chunk|": "documented: Chunk panics for chunkSize <= 0",
+}
+
+// dequeNonEmpty: is there evidence at instruction (b, idx) that the deque denoted by recv holds a non-empty buffer?
+// Evidence: a dominating call of maybeExpand on that deque (leaves len(d.a) >= a positive constant - C04.expand-floor), or a
+// dominating guard that makes Len() positive on that deque (Len() > 0 ⇒ d.a != nil and back != -1 ⇒ len(d.a) > 0): Len() != 0,
+// Len() > k, i < Len() with i >= 0. For an unexported helper without local evidence every call site must provide it.
+func dequeNonEmpty(c *Ctx, fn *ssa.Function, b *ssa.BasicBlock, idx int, recv ssa.Value, depth int) bool {
+	rp := valueProv(recv, provEnv{}).String()
+	same := func(v ssa.Value) bool { return valueProv(v, provEnv{}).String() == rp }
+	// dominating maybeExpand call
+	found := false
+	instrs(fn, func(bb *ssa.BasicBlock, i int, in ssa.Instruction) {
+		call, ok := in.(*ssa.Call)
+		if !ok || found {
+			return
+		}
+		cal := staticCallee(&call.Call)
+		if cal == nil || cal.Name() != "maybeExpand" || len(call.Call.Args) == 0 || !same(call.Call.Args[0]) {
+			return
+		}
+		if (bb == b && i < idx) || (bb != b && bb.Dominates(b)) {
+			found = true
+		}
+	})
+	if found {
+		return true
+	}
+	isLen := func(v ssa.Value) bool {
+		call, ok := resolveVal(v).(*ssa.Call)
+		if !ok {
+			return false
+		}
+		cal := staticCallee(&call.Call)
+		return cal != nil && cal.Name() == "Len" && len(call.Call.Args) == 1 && same(call.Call.Args[0]) && isNamedTypeDeep(call.Call.Args[0].Type(), "container/deque", "Deque")
+	}
+	gs := guardsOf(b)
+	nonNeg := func(v ssa.Value) bool {
+		if k, ok := resolveVal(v).(*ssa.Const); ok && k.Value != nil && k.Int64() >= 0 {
+			return true
+		}
+		for _, g := range gs {
+			if cf, ok := g.asCmp(); ok {
+				x, y, op := cf.x, cf.y, cf.op
+				if resolveVal(y) == resolveVal(v) {
+					x, y, op = y, x, flip(op)
+				}
+				if resolveVal(x) == resolveVal(v) {
+					if k, ok := resolveVal(y).(*ssa.Const); ok && k.Value != nil {
+						if (op == token.GEQ && k.Int64() >= 0) || (op == token.GTR && k.Int64() >= -1) {
+							return true
+						}
+					}
+				}
+			}
+		}
+		return false
+	}
+	for _, g := range gs {
+		cf, ok := g.asCmp()
+		if !ok {
+			continue
+		}
+		x, y, op := cf.x, cf.y, cf.op
+		if isLen(y) {
+			x, y, op = y, x, flip(op)
+		}
+		if !isLen(x) {
+			continue
+		}
+		if k, ok := resolveVal(y).(*ssa.Const); ok && k.Value != nil {
+			n := k.Int64()
+			if (op == token.NEQ && n == 0) || (op == token.GTR && n >= 0) || (op == token.GEQ && n >= 1) {
+				return true
+			}
+			continue
+		}
+		if (op == token.GTR && nonNeg(y)) || (op == token.GEQ && false) {
+			return true
+		}
+	}
+	// helper: every call site provides the evidence for the corresponding argument
+	if depth < 3 && !token.IsExported(fn.Name()) && fn.Parent() == nil {
+		pv := valueProv(recv, provEnv{})
+		pp, ok := pv.root.(*ssa.Parameter)
+		if !ok {
+			return false
+		}
+		pi := -1
+		for i, p := range fn.Params {
+			if p == pp {
+				pi = i
+			}
+		}
+		sites := callSitesOf(c, fn)
+		if pi < 0 || len(sites) == 0 {
+			return false
+		}
+		for _, site := range sites {
+			if pi >= len(site.Call.Args) {
+				return false
+			}
+			arg := site.Call.Args[pi]
+			// re-apply the field path (e.g. iter.d) on the caller's side
+			av := ssa.Value(arg)
+			if len(pv.fields) > 0 {
+				// the deque is a field of the argument: find a value in the caller with that provenance
+				want := valueProv(arg, provEnv{})
+				want.fields = append(append([]string{}, want.fields...), pv.fields...)
+				av = findValueWithProv(site.Parent(), want.String())
+				if av == nil {
+					return false
+				}
+			}
+			if !dequeNonEmpty(c, site.Parent(), site.Block(), idxIn(site), av, depth+1) {
+				return false
+			}
+		}
+		return true
+	}
+	return false
+}
+
+func findValueWithProv(fn *ssa.Function, want string) ssa.Value {
+	var out ssa.Value
+	instrs(fn, func(b *ssa.BasicBlock, i int, in ssa.Instruction) {
+		if v, ok := in.(ssa.Value); ok && out == nil {
+			if _, isLoad := v.(*ssa.UnOp); isLoad && valueProv(v, provEnv{}).String() == want {
+				out = v
+			}
+		}
+	})
+	return out
+}
+
+func isNamedTypeDeep(t types.Type, pkgSuffix, name string) bool {
+	if p, ok := t.(*types.Pointer); ok {
+		t = p.Elem()
+	}
+	return isNamedType(t, pkgSuffix, name) || isNamedType(types.NewPointer(t), pkgSuffix, name)
 }
 
 func ruleNonzeroDivisor(c *Ctx, r *R) {
@@ -439,6 +572,18 @@ func ruleNonzeroDivisor(c *Ctx, r *R) {
 				r.discharged(key, bin.Pos(), "divisor guarded: "+guarded)
 				return
 			}
+			// len(d.a) of a deque: decided from the deque's own invariant, wherever the expression lives
+			if dv := dequeOfLenA(bin.Y); dv != nil {
+				if dequeNonEmpty(c, fn, b, i, dv, 0) {
+					r.discharged(key, bin.Pos(), "len(d.a) > 0 here: after maybeExpand(), or Len() > 0 was established on every path (incl. every call site of this helper)")
+					return
+				}
+			}
+			// a helper's parameter used as divisor: every call site passes a value that is non-zero there
+			if divisorFromCallers(c, fn, bin.Y, 0) {
+				r.discharged(key, bin.Pos(), "every caller passes a divisor that is provably non-zero at the call site")
+				return
+			}
 			for ek, why := range divisorExceptions {
 				parts := strings.SplitN(ek, "|", 2)
 				if parts[0] == name && (parts[1] == "" || strings.Contains(expr, strings.Trim(parts[1], "()"))) {
@@ -473,4 +618,105 @@ func counterField(fn *ssa.Function) string {
 		}
 	}
 	return ""
+}
+
+// dequeOfLenA: v is len(X.a) with X a deque → X (the pointer value), else nil.
+func dequeOfLenA(v ssa.Value) ssa.Value {
+	call, ok := resolveVal(v).(*ssa.Call)
+	if !ok {
+		return nil
+	}
+	bi, ok := call.Call.Value.(*ssa.Builtin)
+	if !ok || bi.Name() != "len" || len(call.Call.Args) != 1 {
+		return nil
+	}
+	ld, ok := resolveVal(call.Call.Args[0]).(*ssa.UnOp)
+	if !ok {
+		return nil
+	}
+	fa, ok := ld.X.(*ssa.FieldAddr)
+	if !ok || fieldName(fa.X.Type(), fa.Field) != "a" || !isNamedTypeDeep(fa.X.Type(), "container/deque", "Deque") {
+		return nil
+	}
+	return fa.X
+}
+
+// divisorFromCallers: the divisor is (derived by provenance from) a parameter of an unexported helper; discharge when at every
+// call site the corresponding argument is a deque buffer length with non-empty evidence, or a non-zero constant, or guarded.
+func divisorFromCallers(c *Ctx, fn *ssa.Function, div ssa.Value, depth int) bool {
+	if depth > 2 || token.IsExported(fn.Name()) || fn.Parent() != nil {
+		return false
+	}
+	lenOf := false
+	if call, ok := resolveVal(div).(*ssa.Call); ok {
+		if bi, ok := call.Call.Value.(*ssa.Builtin); ok && bi.Name() == "len" && len(call.Call.Args) == 1 {
+			div = call.Call.Args[0]
+			lenOf = true
+		}
+	}
+	pp, ok := valueProv(div, provEnv{}).root.(*ssa.Parameter)
+	if !ok || len(valueProv(div, provEnv{}).fields) != 0 {
+		return false
+	}
+	pi := -1
+	for i, p := range fn.Params {
+		if p == pp {
+			pi = i
+		}
+	}
+	sites := callSitesOf(c, fn)
+	if pi < 0 || len(sites) == 0 {
+		return false
+	}
+	for _, site := range sites {
+		if pi >= len(site.Call.Args) {
+			return false
+		}
+		arg := site.Call.Args[pi]
+		if lenOf {
+			// len(param): the argument must be a slice of provably non-zero length: make([]T, n) with n non-zero at the site
+			ms, ok := valueProv(arg, provEnv{}).root.(*ssa.MakeSlice)
+			if !ok {
+				if ms2, ok2 := resolveVal(arg).(*ssa.MakeSlice); ok2 {
+					ms, ok = ms2, true
+				}
+			}
+			if !ok {
+				return false
+			}
+			arg = ms.Len
+		}
+		if k, ok := resolveVal(arg).(*ssa.Const); ok && k.Value != nil && k.Int64() != 0 {
+			continue
+		}
+		if dv := dequeOfLenA(arg); dv != nil && dequeNonEmpty(c, site.Parent(), site.Block(), idxIn(site), dv, 0) {
+			continue
+		}
+		// guarded at the call site
+		okG := false
+		for _, g := range guardsOf(site.Block()) {
+			if cf, ok := g.asCmp(); ok {
+				x, y, op := cf.x, cf.y, cf.op
+				if resolveVal(y) == resolveVal(arg) {
+					x, y, op = y, x, flip(op)
+				}
+				if resolveVal(x) == resolveVal(arg) {
+					if k, ok := resolveVal(y).(*ssa.Const); ok && k.Value != nil {
+						n := k.Int64()
+						if (op == token.NEQ && n == 0) || (op == token.GTR && n >= 0) || (op == token.GEQ && n >= 1) {
+							okG = true
+						}
+					}
+				}
+			}
+		}
+		if okG {
+			continue
+		}
+		if divisorFromCallers(c, site.Parent(), arg, depth+1) {
+			continue
+		}
+		return false
+	}
+	return true
 }
